@@ -64,6 +64,22 @@ chk('C12', 'model_checking', 'explicit-state BFS with stand-alone monitors in lo
     'the oracle is the real stand-alone monitor (whose correctness is C01-C05); dense values compared as functions',
     'DESIGN.md section 5 C12')
 
+chk('C16', 'exploration', 'bounded exhaustive enumeration of formulas x traces x all extensions on the real offline monitors',
+    'for every bounded-future formula of the set, every trace w1 up to length n and EVERY extension w2 by up to k samples over the alphabet, the real offline monitor must return identical values on the settled region t+h<|w1| '
+    '(discrete and dense time); the guard counts cases whose unsettled positions do change, so the boundary is tight',
+    'horizon from the reference (next = 1); bounded trace and extension lengths',
+    'DESIGN.md section 5 C16')
+
+chk('C18', 'exploration', 'bounded exhaustive enumeration of law instances x traces, both sides on the same real monitor',
+    'every instance of the listed dualities/expansion laws over a finite operand set and all bound pairs is monitored on both sides by the same real monitor kind (4 kinds, pastified online for future laws) on all traces / grid signals; the sides must be identical; laws validated on the reference first',
+    'finite operand set; dense online compared where both outputs are defined',
+    'DESIGN.md section 5 C18')
+
+chk('C19', 'exploration', 'bounded exhaustive enumeration of formulas x grid traces, real dense monitor vs real discrete monitor',
+    'every formula of the stated fragment is evaluated by the real dense offline monitor on the grid step signal and by the real discrete offline monitor on the same trace (periods 1 s and 500 ms); values must agree at every sampling instant with k+h<n',
+    'bounded formula size and trace length; both sides are the implementation',
+    'DESIGN.md section 5 C19')
+
 def main():
     props = [json.loads(l) for l in open(os.path.join(ROOT, 'properties.jsonl'))]
     checks = []
